@@ -672,6 +672,13 @@ def external(mod, attr, I):
         return _EnumBase(attr)
     if mod == 'copy' and attr in ('deepcopy', 'copy'):
         return Builtin(attr, _b_deepcopy)
+    if mod in ('grapheme.api', 'grapheme') and attr == 'slice':
+        # grapheme.slice(s) without bounds returns s itself (assumed contract of the external package)
+        def _gslice(I, a, k):
+            if len(a) != 1 or k:
+                raise L.Unsupported('grapheme.slice with bounds')
+            return a[0]
+        return Builtin('grapheme.slice', _gslice)
     return L.NOTFOUND
 
 
@@ -951,7 +958,7 @@ def call_method(I, recv, name, args, kwargs):
         if name == 'get':
             tk = I.term(I.resolve(args[0]))
             if I.branch(recv.has(tk)):
-                return Sym(recv.valkind, recv.get(tk))
+                return Sym(recv.valkind, recv.lookup(I, tk))
             return args[1] if len(args) > 1 else None
     if isinstance(recv, Sym) and recv.kind in (INT, REAL):
         if name == 'is_integer':
@@ -1231,8 +1238,16 @@ def list_method(I, l, name, args, kwargs):
         l.reverse()
         return None
     if name == 'index':
+        lo, hi = 0, len(l)
+        if len(args) > 1:
+            bounds = [I.resolve(b) for b in args[1:3]]
+            if not all(isinstance(b, int) for b in bounds):
+                raise L.Unsupported('list.index with a symbolic start/stop')
+            lo = max(0, bounds[0] + len(l) if bounds[0] < 0 else bounds[0])
+            if len(bounds) > 1:
+                hi = min(len(l), max(0, bounds[1] + len(l) if bounds[1] < 0 else bounds[1]))
         for i, x in enumerate(l):
-            if I.truth(I.compare(ast.Eq, x, args[0])):
+            if lo <= i < hi and I.truth(I.compare(ast.Eq, x, args[0])):
                 return i
         raise PyExc('ValueError')
     if name == 'remove':
